@@ -280,7 +280,8 @@ class UnionParser(AbstractParser[Tuple[Type[T], ...], Optional[T]]):
         return type(item) in self.base_type
 
     def __call__(self, o: Any) -> Optional[T]:
-        if o is None:
+        # `None` is only a valid value when `None` is one of the Union types
+        if o is None and NoneType in self.base_type:
             return o
 
         for parser in self.parsers:
